@@ -29,6 +29,7 @@ pub struct Ctx {
     pub errors: Vec<String>,
     pub soft: Vec<String>,
     pub files: BTreeMap<String, syn::File>,
+    pub local_mods: BTreeSet<String>,   // child modules declared in the files read so far: paths rooted there are crate-local (rule N1)
     pub pending: Vec<(Vec<syn::Generics>, rewrite::LiftedClosure, String)>,   // lifted closures of methods inside an open trait / impl block
 }
 impl Ctx {
@@ -39,7 +40,23 @@ impl Ctx {
             let p = self.repo.join(rel);
             let src = match std::fs::read_to_string(&p) { Ok(s) => s, Err(e) => { self.err(format!("lost anchor: cannot read {}: {}", p.display(), e)); return None; } };
             match syn::parse_file(&src) {
-                Ok(mut f) => { let feats = self.unit.features.clone(); strip_cfg_file(&mut f, &feats, self); self.files.insert(rel.to_string(), f); }
+                Ok(mut f) => {
+                    let feats = self.unit.features.clone(); strip_cfg_file(&mut f, &feats, self);
+                    // N2: `use path::Type::Variant;` makes `Variant` an alias of `Type::Variant` in this file
+                    fn walk(t: &syn::UseTree, parent_upper: Option<String>, out: &mut Vec<(String, String)>) {
+                        match t {
+                            syn::UseTree::Path(p) => { let n = p.ident.to_string(); let up = if n.chars().next().map(|c| c.is_uppercase()).unwrap_or(false) { Some(n) } else { None }; walk(&p.tree, up, out); }
+                            syn::UseTree::Name(n) => { if let Some(pu) = parent_upper { out.push((n.ident.to_string(), format!("{}::{}", pu, n.ident))); } }
+                            syn::UseTree::Group(g) => { for i in &g.items { walk(i, parent_upper.clone(), out); } }
+                            _ => {}
+                        }
+                    }
+                    let mut items = vec![]; all_items(&f.items, &mut items);
+                    let mut found = vec![];
+                    for it in items { if let syn::Item::Use(u) = it { walk(&u.tree, None, &mut found); } if let syn::Item::Mod(m) = it { self.local_mods.insert(m.ident.to_string()); } }
+                    for (a, b) in found { if !self.unit.paths.iter().any(|(k, _)| *k == a) { self.unit.paths.push((a, b)); self.fire("N2"); } }
+                    self.files.insert(rel.to_string(), f);
+                }
                 Err(e) => { self.err(format!("outside dialect: {} does not parse: {}", p.display(), e)); return None; }
             }
         }
@@ -331,6 +348,7 @@ fn struct_fields(file: &syn::File, name: &str) -> Option<Vec<(String, syn::Type)
 fn extract_fn(cx: &mut Ctx, specs: &mut Specs, em: &mut Emitter, ex: &Extract) {
     let Some(file) = cx.file(&ex.file) else { return; };
     let found = find_fn(&file, &ex.path, 0);
+    let found: Vec<Found> = match ex.opt("nth").and_then(|n| n.parse::<usize>().ok()) { Some(n) => found.into_iter().skip(n).take(1).collect(), None => found };
     if found.len() != 1 { cx.err(format!("lost anchor: {} `{}` in {}: {} candidates", ex.kind, ex.path, ex.file, found.len())); return; }
     if ex.opt("poll").as_deref() == Some("yes") {
         // A6: the poll of `impl Future for T` becomes the inherent method `T::await_`
@@ -472,8 +490,9 @@ fn emit_fn(cx: &mut Ctx, specs: &mut Specs, em: &mut Emitter, ex: &Extract, file
     let mut_self = recv.as_ref().map(|r| r.reference.is_none() && r.mutability.is_some()).unwrap_or(false);
     let mut rw = Rw::new(cx, lifted, binders, name.clone());
     rw.self_to_this = mut_self && !lifted;
-    rw.lift_prefix = { let p = ex.path.rsplit('@').next().unwrap().replace("::", "__"); if lifted { format!("{}__async", p) } else { p } };
+    rw.lift_prefix = { let p = match ex.opt("key") { Some(k) => k.replace("::", "__").replace('@', "_"), None => ex.path.rsplit('@').next().unwrap().replace("::", "__") }; if lifted { format!("{}__async", p) } else { p } };
     rw.typed_ctors = specs.sections.keys().filter_map(|k| k.strip_prefix("sig ").map(|s| s.to_string())).collect();
+    rw.typed_caps = specs.sections.keys().filter_map(|k| k.strip_prefix("captype ").map(|s| s.to_string())).collect();
     rw.gen_idents = {
         let mut gs: Vec<syn::Generics> = vec![]; if let Some(im) = &fd.im { gs.push(im.generics.clone()); } if let Some(g) = &tr_generics { gs.push(g.clone()); } gs.push(f.sig.generics.clone());
         let grefs: Vec<&syn::Generics> = gs.iter().collect();
@@ -527,7 +546,7 @@ fn emit_fn(cx: &mut Ctx, specs: &mut Specs, em: &mut Emitter, ex: &Extract, file
 
     let in_impl = !lifted && fd.im.is_some();
     let in_trait_impl = in_impl && fd.im.as_ref().unwrap().trait_.is_some();
-    let name = if in_impl || in_trait.is_some() { ex.path.clone() } else { name };
+    let name = if let Some(k) = ex.opt("key") { k } else if in_impl || in_trait.is_some() { ex.path.clone() } else { name };
     let fn_ident = if in_impl || in_trait.is_some() { f.sig.ident.to_string() } else { name.clone() };
     let indent = if in_impl || in_trait.is_some() { "    " } else { "" };
 
@@ -598,13 +617,26 @@ fn emit_lifted(cx: &mut Ctx, specs: &mut Specs, em: &mut Emitter, gens: &[&syn::
     // ---- constructor
     let ctor = format!("{}__new", lc.name);
     let mut own = String::from("own_none()");
-    let mut tps = vec![]; let mut ps = vec![];
-    for (i, c) in lc.captures.iter().enumerate() { let c = if c == "self" { "this".to_string() } else { c.clone() }; tps.push(format!("HxT{}", i)); ps.push(format!("{}: HxT{}", c, i)); own = format!("own_join({}, own_of(&{}))", own, c); }
+    let mut tps = vec![]; let mut ps = vec![]; let mut any_typed = false;
+    for (i, c) in lc.captures.iter().enumerate() {
+        let c = if c == "self" { "this".to_string() } else { c.clone() };
+        match specs.get(&format!("captype {} {}", ctor, c)) {
+            Some(t) => { any_typed = true; ps.push(format!("{}: {}", c, t.trim())); }
+            None => { tps.push(format!("HxT{}", i)); ps.push(format!("{}: HxT{}", c, i)); }
+        }
+        own = format!("own_join({}, own_of(&{}))", own, c);
+    }
     em.raw(&format!("pub open spec fn {}__code() -> int {{ {} }}", lc.name, fnv(&lc.name)));
     let start = em.line();
     em.raw("#[verifier::external_body] // @closure-constructor: a closure object owns exactly what its literal captures (Rust semantics)");
     match specs.get(&format!("sig {}", ctor)) {
         Some(sig) => em.raw(&format!("pub fn {}{}{} -> (r: ClosureObj){}", ctor, gtxt_all, sig.trim(), wtxt_all)),
+        None if any_typed => {
+            // enclosing generics first (they appear in the capture types the spec gives), then one parameter per generic capture
+            let g = gtxt_all.trim().trim_start_matches('<').trim_end_matches('>').to_string();
+            let mut all: Vec<String> = if g.is_empty() { vec![] } else { vec![g] }; all.extend(tps.clone());
+            em.raw(&format!("pub fn {}<{}>({}) -> (r: ClosureObj){}", ctor, all.join(", "), ps.join(", "), wtxt_all));
+        }
         None => em.raw(&format!("pub fn {}{}({}) -> (r: ClosureObj)", ctor, if tps.is_empty() { String::new() } else { format!("<{}>", tps.join(", ")) }, ps.join(", "))),
     }
     em.raw(&format!("    ensures r.captured() == {}, r.code() == {},", own, fnv(&lc.name)));
@@ -623,6 +655,7 @@ fn emit_lifted(cx: &mut Ctx, specs: &mut Specs, em: &mut Emitter, gens: &[&syn::
     let mut rw = Rw::new(cx, false, binders, lc.name.clone());
     rw.lift_prefix = lc.name.clone();
     rw.typed_ctors = specs.sections.keys().filter_map(|k| k.strip_prefix("sig ").map(|s| s.to_string())).collect();
+    rw.typed_caps = specs.sections.keys().filter_map(|k| k.strip_prefix("captype ").map(|s| s.to_string())).collect();
     rw.gen_idents = { let cl = closure_generics(gens, rw.cx); gens.iter().flat_map(|g| g.params.iter().filter_map(|p| if let syn::GenericParam::Type(t) = p { Some(t.ident.to_string()) } else { None }).collect::<Vec<_>>()).filter(|n| !cl.contains_key(n)).collect() };
     rw.visit_block_mut(&mut block);
     let nloops = rw.loops;
@@ -775,7 +808,7 @@ fn main() {
     }
     let unit_path = unit_path.expect("--unit");
     let unit = match Unit::load(&unit_path) { Ok(u) => u, Err(e) => { eprintln!("hx: {}", e); std::process::exit(2); } };
-    let mut cx = Ctx { unit, repo, probe, rules: BTreeMap::new(), errors: vec![], soft: vec![], files: BTreeMap::new(), pending: vec![] };
+    let mut cx = Ctx { unit, repo, probe, rules: BTreeMap::new(), errors: vec![], soft: vec![], files: BTreeMap::new(), local_mods: BTreeSet::new(), pending: vec![] };
     let mut specs = Specs::default();
     specs.defines = cx.unit.defines.clone();
     for s in cx.unit.specs.clone() { if let Err(e) = specs.load(&root.join(&s)) { eprintln!("hx: {}", e); std::process::exit(2); } }
